@@ -347,10 +347,10 @@ Proof.
   intros W H. unfold exchange_derive_key in H.
   pose proof op_private_values as (_ & _ & _ & _ & _ & _ & Pd).
   destruct (k_kty self) eqn:Es; try discriminate H.
-  - inv_bind H. destruct (get_op_key_ok _ _ _ W Ha) as (Ho & _ & _).
-    destruct (k_priv self); [|discriminate Hb].
-    inv_bind Hb. destruct (curve_name_ok _ _ Hba) as [Hk Hc]. subst.
-    destruct (String.eqb (k_crv self) (k_crv other)) eqn:Q; [|discriminate Hbb].
+  - inv_bind H. clear Ha. inv_bind Hb. destruct (get_op_key_ok _ _ _ W Hba) as (Ho & _ & _).
+    destruct (k_priv self); [|discriminate Hbb].
+    inv_bind Hbb. destruct (curve_name_ok _ _ Hbba) as [Hk Hc]. subst.
+    destruct (String.eqb (k_crv self) (k_crv other)) eqn:Q; [|discriminate Hbbb].
     apply String.eqb_eq in Q. repeat split; auto.
   - inv_bind H. destruct (get_op_key_ok _ _ _ W Ha) as (Ho & _ & Hn). rewrite Pd in Hn.
     subst x. unfold native_of in Hb.
@@ -542,12 +542,12 @@ Proof.
             | intros _; split; [exact Xp | split; [exact Ekt | symmetry; exact Xc]] ]).
   (* ECDH-1PU *)
   all: inv_bind H; destruct sender as [s|]; [|discriminate Hb];
-    inv_bind Hb; inv_bind Hbb;
-    destruct (import_epk_ok _ _ _ Hba) as (Eek & Ekt & Hk); subst x;
+    inv_bind Hb; clear Hba; inv_bind Hbb; inv_bind Hbbb;
+    destruct (import_epk_ok _ _ _ Hbba) as (Eek & Ekt & Hk); subst x;
     pose proof (key_wf_curves _ (Ws s eq_refl)) as Wsc;
     destruct (Ws s eq_refl) as (_ & Wso & _);
-    pose proof (exchange_ok _ _ Wso Hbba) as X;
-    pose proof (exchange_ok _ _ (epk_ops_wf e) Hbbb) as Y;
+    pose proof (exchange_ok _ _ Wso Hbbba) as X;
+    pose proof (exchange_ok _ _ (epk_ops_wf e) Hbbbb) as Y;
     destruct X as (Xp & Xc & Xk & _); destruct Y as (_ & Yc & Yk & _); simpl in Yc;
     (split; [ destruct Yk as [[Yk Yo] | (Yk & Yo & Yx)]; [left; exact Yk | right; split; assumption] |]);
     (split; [| intros _; split; [exact Xp | split; [exact Ekt | symmetry; exact Yc]]]);
@@ -749,6 +749,21 @@ Proof.
     try contradiction;
     (split; [| intro Q]); try (exfalso; apply Q; reflexivity);
     cbn -[jwe_check_key_type]; rewrite G; reflexivity.
+Qed.
+
+(* ECDH-1PU decryption: the recipient key type is an explicit gate as well, reached once
+   the enc restriction holds and a sender key is there; without a sender key the
+   explicit error is InvalidExchangeKeyError (reported as DecodeError by perform_decrypt) *)
+Lemma jwe_1pu_decrypt_classes r en k s e :
+  ea_family r = "ECDH1PU" -> check_enc_1pu r en = Ok tt ->
+  (mem_str (kty_str (k_kty k)) (ea_key_types r) = false ->
+   jwe_decrypt_alg prim r en k (Some s) e = Err (EJose InvalidKeyTypeError)) /\
+  map_exchange_err (jwe_decrypt_alg prim r en k None e) = Err (EJose DecodeError).
+Proof.
+  intros Hf He. unfold jwe_decrypt_alg. rewrite Hf.
+  cbn -[jwe_check_key_type check_enc_1pu]. rewrite He. cbn -[jwe_check_key_type]. split.
+  - intro Hn. unfold jwe_check_key_type. rewrite Hn. reflexivity.
+  - reflexivity.
 Qed.
 
 (* AES key wrap / GCM key wrap with an oct key of another size, and RSA
